@@ -13,6 +13,10 @@ Implementation under test (real code, in-process, single-threaded):
     start observable handed to the real `run`.  When no launch is pending (the previous restart was refused, or
     `run()` raised) the exit is injected through the real `Engine._setExitReason(reason)`.
     RepeatingEngine: the ivars its real `exitReason()` reads are set.
+    kill(): launch kinds `kill:before-run` / `kill:pre-launch` deliver the real `Engine.kill()` before run() was ever
+    called resp. after run() (first launch, or the run() made by `Engine.restart`) and INSTEAD of the emission of the
+    start observable, i.e. inside the launch delay; the oracle takes that task as killed whatever the engine reports;
+    the reported exit reason is compared with `RestartKill.kexec` (lean/St4sd/Model/RestartKill.lean).
   * then the real `Controller._restartComponent(component)` (mode fin=false) or the real
     `Controller.postMortemCheck(state, component)` (mode fin=true: real TransitionComponentToFinalState,
     ComponentState.finish, Engine.shutdown).
@@ -205,6 +209,11 @@ class FakeTask(StubProc):
 
 
 LAUNCHES = ["task", "submitError:os", "submitError:launch", "otherError"]
+# kill() delivered to the real engine at the points of its life cycle (property: "never after a killed ... task"):
+# before run() was ever called, and between run() (first launch or the run() of a restart) and LaunchTask - the
+# launch delay of production.  (A kill while the task runs needs the task pool's second thread: the synchronous
+# schedulers of this harness deliver Terminate only after wait() returned; not driven.)
+KILLS = ["kill:before-run", "kill:pre-launch"]
 DEFAULT_LISTED = ["ResourceExhausted"]   # documented default of restartHookOn when the component writes no list
 
 
@@ -404,12 +413,22 @@ class _Driven:
             eng.kernelCompleted = True
             eng.lastExecution = False
             return "none"
+        kill = (inp.get("launch") or "").startswith("kill:") and inp["launch"]
+        if kill == "kill:before-run" and first and eng._runCalled is None:
+            eng.kill()                              # the real method, before run() was ever called
+            return "killed-before-run"
         if first and not no_initial_run:
             self.flags["initial"] = True
             try:
                 eng.run()                           # first launch of the component's task
             finally:
                 self.flags["initial"] = False
+        if pending and kill:
+            # run() was called (first launch, or by Engine.restart) and waits for the launch delay: the start
+            # observable never gets to emit, kill() arrives first
+            del pending[:]
+            eng.kill()
+            return "killed-before-launch"
         if pending:
             start = pending.pop(0)
             del pending[:]
@@ -456,6 +475,7 @@ def impl_run(case, root):
         S["threads"] = 0
         events = []
         launches = []
+        has_kill = any(str(i.get("launch") or "").startswith("kill:") for i in case["inps"])
         for step_no, inp in enumerate(case["inps"]):
             k = inp.get("comp", 0)
             d = driven[k]
@@ -467,11 +487,13 @@ def impl_run(case, root):
             S["thread_fails"] = bool(inp["runFails"])
             S["stable"] = bool(inp["stable"])
             launches.append(d.task_exits(inp, case.get("noInitialRun")))
-            if not cfg["repeating"] and eng.exitReason() != reason:
+            killed = launches[-1].startswith("kill")
+            if not cfg["repeating"] and eng.exitReason() != reason and not killed:
                 return {"error": "exit-reason-not-delivered", "detail": {"step": step_no, "wanted": reason,
                                                                          "engine": eng.exitReason(),
                                                                          "launch": launches[-1]}}
             d.flags["run_fails"] = bool(inp["runFails"])
+            reported = eng.exitReason()             # what the engine says about the task that just ended
             before = d.total()
             others_before = [o.total() for o in driven]
             threads_before = S["threads"]
@@ -504,6 +526,8 @@ def impl_run(case, root):
                   "started": d.total() - before, "state": str(comp.state),
                   "finishCalled": bool(comp.finishCalled), "launch": launches[-1], "created": d.runs["created"],
                   "hookCalls": int(os.environ.get("C12_HOOK_CALLS", "0"))}
+            if has_kill and not cfg["repeating"]:
+                ev["engineReason"] = reported
             if "comps" in case:
                 ev["comp"] = k
                 ev["hookFiles"] = [f for f in os.environ.get("C12_HOOK_FILES", "").split(";") if f]
@@ -559,7 +583,9 @@ def oracle_component(cfg, fin, mine, seen, fixed, own, several):
     restarts_started = 0        # times the task was started again for a reason other than a failed submission
     final_at = None
     for k, inp, ev in mine:
-        reason = inp["reason"]
+        # what ended the task: the harness delivered kill() to the engine before the task was launched - a killed task,
+        # whatever the engine goes on to report about it -, otherwise the reason the task itself reported
+        reason = "Killed" if str(ev.get("launch", "")).startswith("killed-") else inp["reason"]
         hook = fixed if several else inp["hook"]
         if several and ev.get("othersStarted"):
             bad.append(("exit-of-one-component-starts-another-components-task", {"step": k, "event": ev}))
@@ -669,6 +695,7 @@ def gen_inps(rng, cfg, n, fin):
     unlisted = [r for r in REASONS if r not in listed] or REASONS
     good_hooks = ["ctx:RestartContextRestartPossible", "yes", "junk", "ioError", "ctx:RestartContextHookNotAvailable"]
     lstyle = rng.choice([0.0, 0.0, 0.3, 0.5, 1.0])   # share of failed submissions that are raised by the task generator
+    kstyle = rng.choice([0.0, 0.0, 0.08, 0.2, 0.5])  # share of launches that a kill() forestalls
     inps = []
     for _ in range(n):
         if style in ("listed", "listed-hook-faults") and listed:
@@ -698,6 +725,10 @@ def gen_inps(rng, cfg, n, fin):
             launch = rng.choice(["submitError:os", "submitError:launch"])
         elif reason == "UnknownIssue" and k < 0.3:
             launch = "otherError"
+        if not cfg["repeating"] and rng.random() < kstyle:
+            # kill() reaches the engine before this launch happens (first launch, or the launch of the restart
+            # initiated at the previous exit); at the first step possibly before run() was called at all
+            reason, launch = "Killed", rng.choice(KILLS)
         inps.append({"reason": reason, "hook": hook, "variant": rng.randrange(12), "launch": launch,
                      "control": rng.random() < 0.4, "runFails": (not fin) and rng.random() < 0.08,
                      "stable": rng.random() < (0.25 if style == "unlisted-unstable" else 0.7)})
@@ -903,6 +934,27 @@ def corpus_cases():
     # killed / cancelled, unstable system
     cs.append({"cfg": _cfg(hookOn=SCHEMA_REASONS, maxRestarts=-1), "fin": False, "explicit": False,
                "inps": [_inp("Killed", stable=False), _inp("Cancelled", stable=False), _inp("UnknownIssue", stable=False)]})
+    # kill() at every point of the engine's life cycle before a launch: before run(), in the launch delay of the first
+    # run(), in the launch delay of the run() of a restart (after 1 and after several restarts, every listed reason,
+    # after re-submissions), with budgets left; bare _restartComponent (history goes on) and real post-mortem handling
+    for fin in (False, True):
+        for prev in SCHEMA_REASONS:
+            if prev == "Success":
+                continue
+            cs.append({"cfg": _cfg(hookOn=[prev, "KnownIssue"], hookFile=["", None, "custom.py"][len(cs) % 3],
+                                   maxRestarts=[None, -1, 5][len(cs) % 3]), "fin": fin, "explicit": False,
+                       "inps": [_inp(prev), _inp("Killed", launch="kill:pre-launch"), _inp(prev), _inp("KnownIssue"),
+                                _inp("Killed", launch="kill:pre-launch"), _inp("KnownIssue")]})
+        cs.append({"cfg": _cfg(hookOn=["ResourceExhausted"], maxRestarts=-1), "fin": fin, "explicit": False,
+                   "inps": [_inp("ResourceExhausted")] * 4 + [_inp("Killed", launch="kill:pre-launch", stable=False)] +
+                           [_inp("ResourceExhausted")] * 2})
+        cs.append({"cfg": _cfg(hookOn=["ResourceExhausted"]), "fin": fin, "explicit": False,
+                   "inps": [_inp("Killed", launch="kill:before-run"), _inp("ResourceExhausted"),
+                            _inp("Killed", launch="kill:pre-launch"), _inp("ResourceExhausted")]})
+        cs.append({"cfg": _cfg(hookOn=["ResourceExhausted"], backend="simulator"), "fin": fin, "explicit": False,
+                   "inps": [_inp("Killed", launch="kill:pre-launch"), _inp("ResourceExhausted"),
+                            _inp("Killed", launch="kill:pre-launch"), _inp("SubmissionFailed", launch="submitError:os"),
+                            _inp("Killed", launch="kill:pre-launch")]})
     # refusal gives the final state; later exits cannot restart
     cs.append({"cfg": _cfg(hookOn=["KnownIssue"], maxRestarts=1), "fin": True, "explicit": False,
                "inps": [_inp("KnownIssue"), _inp("KnownIssue"), _inp("KnownIssue"), _inp("SubmissionFailed")]})
@@ -967,6 +1019,9 @@ def tags_for(case, out):
             t.append("code:" + str(ev["code"]))
             t.append("reason:" + inp["reason"])
             t.append("launch:" + ev["launch"] + ("/SubmissionFailed" if inp["reason"] == "SubmissionFailed" else ""))
+            if ev["launch"].startswith("killed-"):
+                t.append("kill:" + ev["launch"] + (":restart-pending" if ev["runs"] > 0 and ev["launch"] ==
+                                                   "killed-before-launch" else ""))
             if ev.get("hookCalls", 0) > 0:
                 t.append("hook-asked:" + (inp["hook"] if inp["hook"].startswith("ctx:") or inp["hook"] != "junk"
                                           else "junk"))
@@ -1004,8 +1059,9 @@ def failures(case, out, root):
 
 
 def model_request(c, o):
-    inps = [{"reason": i["reason"], "hook": i.get("hook") or "junk", "control": bool(i["control"]),
-             "runFails": bool(i["runFails"]), "stable": bool(i["stable"]), "launch": la, "comp": i.get("comp", 0)}
+    inps = [{"reason": "Killed" if la.startswith("killed-") else i["reason"], "hook": i.get("hook") or "junk",
+             "control": bool(i["control"]), "runFails": bool(i["runFails"]), "stable": bool(i["stable"]),
+             "launch": "none" if la.startswith("killed-") else la, "comp": i.get("comp", 0)}
             for i, la in zip(c["inps"], o["launches"])]
     if "comps" in c:
         return {"op": "mexec", "fin": bool(c["fin"]),
@@ -1015,10 +1071,27 @@ def model_request(c, o):
     return {"op": "exec", "old": False, "fin": bool(c["fin"]), "cfg": model_cfg(c["cfg"]), "inps": inps}
 
 
+def kill_request(c, o):
+    """the history as `RestartKill.kexec` gets it: where the harness delivered kill() to the engine instead of a launch"""
+    la = o["launches"]
+    inps = [dict(i, kill=l.startswith("killed-")) for i, l in zip(model_request(c, o)["inps"], la)]
+    return {"op": "kexec", "fin": bool(c["fin"]), "cfg": model_cfg(c["cfg"]), "inps": inps,
+            "firstRun": not c.get("noInitialRun") and la[0] != "killed-before-run"}
+
+
 def check_cases(ctx, cases, root, n_corpus=0):
     outs = [impl_run(c, root) for c in cases]
     mouts = None
     if ctx.driver is not None:
+        kidx = [k for k, (c, o) in enumerate(zip(cases, outs)) if "events" in o and "comps" not in c
+                and not c["cfg"]["repeating"] and any("engineReason" in e for e in o["events"])]
+        if kidx:
+            keys = ("engineReason", "code", "restarts", "resub", "runs", "shutdown")
+            for k, ans in zip(kidx, ctx.model([kill_request(cases[k], outs[k]) for k in kidx])):
+                ctx.compare("kill() before a launch (before run(), in the launch delay of the first run() or of a restart): exit "
+                            "reason the engine reports, code, counters per exit == RestartKill.kexec", cases[k],
+                            [dict({x: e[x] for x in keys[1:]}, engineReason=e["reported"]) for e in ans["events"]],
+                            [{x: e[x] for x in keys} for e in outs[k]["events"]])
         reqs = []
         idx = []
         for k, (c, o) in enumerate(zip(cases, outs)):
@@ -1217,7 +1290,9 @@ def run(ctx):
                 "kinds, ImportError) x backend (local, simulator with sim_restart variants) x engine kind; every step = "
                 "(how the launch goes: Task object created / generator raises OSError / JobLaunchError / other exception, "
                 "exit reason the task reports, hook answer out of 6 contexts/True/False/raising/IOError/12 junk values, CONTROL "
-                "file, run() raising, system stable; styles incl. faults inside the user's hook - raising / reporting failure / "
+                "file, run() raising, system stable; in 3 of 5 histories of a plain Engine 8%/20%/50% of the launches are forestalled "
+                "by the real Engine.kill() - before run() at the first step, otherwise inside the launch window of the first run() "
+                "or of the run() made by the restart initiated at the previous exit; styles incl. faults inside the user's hook - raising / reporting failure / "
                 "refusing - at any point of a history of listed exits); maxRestarts up to 11; 12% of the cases under an ambient log "
                 "level debug/info/warning with the records really handled; the policy as WRITTEN goes through the real FlowIR loader "
                 "in every case (restartHookOn missing / [] / every singleton / subsets (all 64 in thorough) x maxRestarts missing/0/-1/.. x "
@@ -1240,6 +1315,8 @@ def run(ctx):
         "exitReason() reads, its restart thread is intercepted (counted, optionally raising)",
         "real thread interleavings of RxPY are replaced by synchronous schedulers; the launch delay (op.delay in engine.py) "
         "is not waited for",
+        "kill() is delivered before a launch only (before run(), in the launch window of the first run() or of a restart); a "
+        "kill() while the task runs is not driven (Terminate is delivered after wait() under the synchronous schedulers)",
         "run() raising is only injected in the _restartComponent mode: the engine of a failed launch cannot die by "
         "itself, so the asynchronous path of ComponentState.finish is not observable",
         "restartHookOn / maxRestarts restricted to what the FlowIR schema accepts (the loader rejects the rest, checked once per run)",
